@@ -134,7 +134,9 @@ def is_internal_attribute(obj: t.Any, attr: str) -> bool:
     elif isinstance(obj, types.MethodType):
         if attr in UNSAFE_FUNCTION_ATTRIBUTES or attr in UNSAFE_METHOD_ATTRIBUTES:
             return True
-    elif isinstance(obj, type):
+    elif isinstance(obj, (type, types.GenericAlias)):
+        # a parameterized alias such as ``dict[str, int]`` forwards attribute
+        # lookups to the class it was made from
         if attr == "mro":
             return True
     elif isinstance(obj, (types.CodeType, types.TracebackType, types.FrameType)):
